@@ -36,15 +36,15 @@ K = "traph/link_store/link_store.py"
 H = "traph/helpers.py"
 
 mut("refresh-add-prefixes", T, "                node.refresh()  # node update necessary\n", "", ["C04", "C13", "C06"])
-mut("refresh-add-page-exists", T, "        if len(longest_candidate_prefix) <= history.webentity_position:\n            node.refresh()  # update node\n", "        if len(longest_candidate_prefix) <= history.webentity_position:\n", ["C01", "C03"])
-mut("refresh-add-page-created", T, "            report += self.__create_webentity(longest_candidate_prefix, expand=True)\n            node.refresh()  # update node\n            return node, report\n", "            report += self.__create_webentity(longest_candidate_prefix, expand=True)\n            return node, report\n", ["C01", "C03", "C04"])
-mut("refresh-add-page-default", T, "            report += self.__create_webentity(longest_candidate_prefix, expand=True)\n\n        node.refresh()  # update node\n", "            report += self.__create_webentity(longest_candidate_prefix, expand=True)\n\n", ["C01", "C03", "C04"])
+mut("EQUIV-refresh-add-page-exists", T, "        if len(longest_candidate_prefix) <= history.webentity_position:\n            node.refresh()  # update node\n", "        if len(longest_candidate_prefix) <= history.webentity_position:\n", ["C01", "C03"])
+mut("EQUIV-refresh-add-page-created", T, "            report += self.__create_webentity(longest_candidate_prefix, expand=True)\n            node.refresh()  # update node\n            return node, report\n", "            report += self.__create_webentity(longest_candidate_prefix, expand=True)\n            return node, report\n", ["C01", "C03", "C04"])
+mut("EQUIV-refresh-add-page-default", T, "            report += self.__create_webentity(longest_candidate_prefix, expand=True)\n\n        node.refresh()  # update node\n", "            report += self.__create_webentity(longest_candidate_prefix, expand=True)\n\n", ["C01", "C03", "C04"])
 mut("refresh-add-links-source", T, "            # Refreshing node's data\n            source_node.refresh()\n", "", ["C03", "C01"])
 mut("refresh-add-links-target", T, "            # Refreshing node's data\n            target_node.refresh()\n", "", ["C03", "C01"])
 mut("refresh-batch-flag-crawled", T, "                if not source_node.is_crawled():\n                    source_node.refresh()\n", "                if not source_node.is_crawled():\n", ["C16", "C03", "C01"])
 mut("refresh-batch-outlinks", T, "            source_node.refresh()\n            store.add_outlinks(source_node, target_blocks)\n", "            store.add_outlinks(source_node, target_blocks)\n", ["C16", "C03"])
 mut("refresh-batch-inlinks", T, "            target_node = pages[target_page]\n            target_node.refresh()\n            source_blocks = (pages[source_page].block for source_page in source_pages)\n            store.add_inlinks(target_node, source_blocks)\n\n            if state", "            target_node = pages[target_page]\n            source_blocks = (pages[source_page].block for source_page in source_pages)\n            store.add_inlinks(target_node, source_blocks)\n\n            if state", ["C16", "C03"])
-mut("bst-lookup-le", L, "                if stem < current_stem:\n                    if node.has_left():\n                        node.read_left()\n                    else:\n                        return\n", "                if stem <= current_stem[:len(stem)]:\n                    if node.has_left():\n                        node.read_left()\n                    else:\n                        return\n", ["C02"])
+mut("bst-lookup-first-block-only", L, "                if stem < current_stem:\n                    if node.has_left():\n                        node.read_left()\n                    else:\n                        return\n", "                if stem[:74] < current_stem[:74]:\n                    if node.has_left():\n                        node.read_left()\n                    else:\n                        return\n", ["C02"])
 mut("crawled-not-turned-on-on-resubmission", L, "        elif crawled and not node.is_crawled():\n            node.flag_as_crawled()\n\n            node.write()\n", "", ["C01"])
 mut("report-counts-resubmissions", L, "            node.write()\n            history.page_was_created = True\n", "            node.write()\n\n        history.page_was_created = True\n", ["C01"])
 mut("follow-compares-first-block-only", L, "            while True:\n                current_stem = node.stem()\n\n                if current_stem == stem:\n                    break\n\n                if stem < current_stem:\n                    if node.has_left():\n                        node.read_left()\n                    else:\n                        return None, history\n", "            while True:\n                current_stem = node.stem()\n\n                if current_stem[:74] == stem[:74]:\n                    break\n\n                if stem < current_stem:\n                    if node.has_left():\n                        node.read_left()\n                    else:\n                        return None, history\n", ["C04", "C06", "C02"])
@@ -65,14 +65,14 @@ mut("auto-links-leak-fast", T, "                if not include_auto and source_w
 mut("pagelinks-outbound-drops-unresolved-targets", T, "                        if (include_outbound and target_webentity != weid) or (\n                            include_internal and target_webentity == weid\n                        ):\n                            pagelinks.append([lru, target_lru, weight])\n", "                        if (include_outbound and target_webentity and target_webentity != weid) or (\n                            include_internal and target_webentity == weid\n                        ):\n                            pagelinks.append([lru, target_lru, weight])\n", ["C08"])
 mut("inorder-resume-ge", L, "                if pagination_path is None or current_lru > pagination_lru:\n", "                if pagination_path is None or current_lru >= pagination_lru:\n", ["C09", "C10"])
 mut("inorder-pruning-strict", L, "            return current_path >= p\n", "            return current_path > p or current_path == p[: len(current_path)] and len(current_path) < len(comparison_path)\n", ["C09", "C10"])
-mut("token-from-lookahead-page", T, "                n += 1\n\n                if k is not None and n >= k:\n", "                n += 1\n                last_path = path if last_path is None else last_path\n\n                if k is not None and n >= k:\n", [])
+mut("token-from-lookahead-page", T, "                n += 1\n\n                if k is not None and n >= k:\n", "                n += 1\n                if n > 1:\n                    last_path = path\n                    last_path_i = i\n\n                if k is not None and n >= k:\n", ["C09"])
 mut("page-pagination-path-not-reset", T, "                last_path = path\n                last_path_i = i\n\n            # We reset the pagination path for next prefix\n            pagination_path = None\n\n        return {\"done\": True, \"count\": n, \"count_crawled\": c, \"pages\": pages}\n", "                last_path = path\n                last_path_i = i\n\n        return {\"done\": True, \"count\": n, \"count_crawled\": c, \"pages\": pages}\n", ["C09"])
 mut("header-write-dropped", T, "        header.increment_last_webentity_id()\n        header.write()\n", "        header.increment_last_webentity_id()\n", ["C12", "C11"])
 mut("child-flag-only-on-new-nodes", L, "            if (\n                i < l - 1\n                and flag_can_have_child_webentities\n                and not node.can_have_child_webentities()\n            ):\n                node.flag_can_have_child_webentities()\n                node.write()\n", "", ["C13"])
 mut("add-prefix-does-not-flag-ancestors", T, "        # check prefix\n        node, history = self.lru_trie.add_lru(\n            prefix, flag_can_have_child_webentities=True\n        )\n        if node.has_webentity():\n            raise TraphException(\n                \"Prefix %s already attributed", "        # check prefix\n        node, history = self.lru_trie.add_lru(prefix)\n        if node.has_webentity():\n            raise TraphException(\n                \"Prefix %s already attributed", ["C13"])
 mut("query-uses-add-lru", T, "        prefix = self.__encode(prefix)\n\n        node = self.lru_trie.lru_node(prefix)\n        if not node:\n            raise TraphException(\"LRU %s not in the traph\" % (prefix))\n        if not node.has_webentity():\n            raise TraphException(\"LRU %s is not a webentity prefix\" % (prefix))\n", "        prefix = self.__encode(prefix)\n\n        node, _ = self.lru_trie.add_lru(prefix)\n        if not node.has_webentity():\n            raise TraphException(\"LRU %s is not a webentity prefix\" % (prefix))\n", ["C14", "C02", "C19"])
 mut("potential-prefix-writes-back", T, "        lru = self.__encode(lru)\n        node, history = self.lru_trie.follow_lru(lru)\n\n        # Retrieving the longest candidate prefix\n", "        lru = self.__encode(lru)\n        node, history = self.lru_trie.follow_lru(lru)\n        if node and node.is_page() and not node.is_crawled():\n            node.write()\n\n        # Retrieving the longest candidate prefix\n", ["C14"])
-mut("child-linked-before-written", L, "            child.write()\n\n            # Linking the child to its parent\n            node.set_child(child.block)\n            node.write()\n", "            # Linking the child to its parent\n            node.set_child(int(self.storage.count_blocks()) * self.storage.block_size)\n            node.write()\n\n            child.write()\n", ["C18"])
+mut("EQUIV-C18-child-linked-before-written", L, "            child.write()\n\n            # Linking the child to its parent\n            node.set_child(child.block)\n            node.write()\n", "            # Linking the child to its parent\n            node.set_child(int(self.storage.count_blocks()) * self.storage.block_size)\n            node.write()\n\n            child.write()\n", ["C18"])
 mut("head-before-stubs", K, "            link_node.write()\n\n            tail_node = link_node\n", "            link_node.write()\n\n            tail_node = link_node\n            source_node.set_links(tail_node.block + self.storage.block_size, out=out)\n            source_node.write()\n", ["C18"])
 mut("most-linked-depth-off-by-one", L, "                if max_depth is not None and level >= max_depth:\n", "                if max_depth is not None and level > max_depth:\n", ["C20"])
 mut("most-linked-heap-keeps-smallest", T, "                    heapq.heappush(pages, (indegree, c, lru))\n\n                    if len(pages) > pages_count:\n                        heapq.heappop(pages)\n", "                    heapq.heappush(pages, (indegree, c, lru))\n\n                    if len(pages) > pages_count:\n                        pages.remove(max(pages))\n                        heapq.heapify(pages)\n", ["C20"])
@@ -163,6 +163,7 @@ def main():
     ap.add_argument("--jobs", type=int, default=4)
     ap.add_argument("--shards", type=int, default=4)
     ap.add_argument("--all-props", action="store_true")
+    ap.add_argument("--reverts", choices=["only", "also"])
     a = ap.parse_args()
     if a.patch:
         props = a.props.split(",") if a.props else ALL
@@ -170,11 +171,24 @@ def main():
         print(json.dumps(r, indent=1))
         return 0
     muts = [m for m in M if not a.only or m["name"] in a.only.split(",")]
+    if a.reverts:
+        # every "fix:" commit of /repo, reverted, is a mutant too
+        log = subprocess.run(["git", "-C", REPO, "log", "--format=%h %s"], capture_output=True, text=True).stdout.splitlines()
+        rdir = tempfile.mkdtemp(prefix="vt-reverts-")
+        muts = [] if a.reverts == "only" else muts
+        for line in log:
+            h, subj = line.split(" ", 1)
+            if not subj.startswith("fix:"):
+                continue
+            pf = os.path.join(rdir, h + ".diff")
+            with open(pf, "w") as f:
+                f.write(subprocess.run(["git", "-C", REPO, "diff", h, h + "^"], capture_output=True, text=True).stdout)
+            muts.append({"name": "revert-" + h + " " + subj[:60], "patch": pf, "expect": []})
     results = []
 
     def job(m):
         props = a.props.split(",") if a.props else (ALL if a.all_props else sorted(set(m["expect"]) | {"C01", "C02", "C03", "C04"}))
-        r = evaluate(m["name"], apply_mut(m), props, a.tier, a.shards, m["expect"])
+        r = evaluate(m["name"], apply_patch(m["patch"]) if "patch" in m else apply_mut(m), props, a.tier, a.shards, m["expect"])
         print("%-45s tests:%s caught_by=%s inconclusive=%s %s" % (m["name"], "survives" if r.get("survives_repo_tests") else "KILLED",
                                                                   r.get("caught_by"), r.get("inconclusive"), r.get("error", "")), flush=True)
         return r
